@@ -306,6 +306,31 @@ def check_fit(ctx, repo, out, cls, bool_typed, eval_score_key, signs):
         if sp is not None:
             how, series = sp
             series = unwrap(series)
+            # a row-filtered column (tbl.loc[mask, c] / col.dropna() / col[mask]): arg-min is then a *position in the filtered
+            # series*, while best_score_/best_params_ are cells of the full table
+            filtered = None
+            while True:
+                if is_mcall(series, "dropna") and not series.a[1]:
+                    filtered, series = "dropna()", series.a[0].a[0]
+                    continue
+                if isinstance(series, T) and series.op == "sub" and isinstance(series.a[0], T) and series.a[0].op == "attr" \
+                        and series.a[0].a[1] == "loc" and isinstance(series.a[1], T) and series.a[1].op == "tuple" and len(series.a[1].a[0]) == 2:
+                    rows_, col_ = series.a[1].a[0]
+                    if not (isinstance(rows_, T) and rows_.op == "slice") and not is_const(rows_):
+                        filtered = show(rows_)[:60]
+                        series = sub(series.a[0], T("tuple", (T("slice", None, None, None), col_)))
+                        continue
+                break
+            positional = how in ("argmin", "argmax")
+            if filtered is not None and positional:
+                out.add(scen, "violation", "R2", "%s.fit:best_index_:same-table" % D,
+                        "best_index_ is the %s *position* in a row-filtered series (%s) but best_score_/best_params_ use it as a row of the full "
+                        "results table: whenever a filtered-out candidate precedes the winner another candidate's row is reported" % (how, filtered),
+                        loc_bi, "position-in-filtered-series")
+            else:
+                out.add(scen, "ok", "R2", "%s.fit:best_index_:same-table" % D,
+                        "best_index_ is %s" % ("a row label (%s)" % how if not positional else "the arg-min position over all rows of the results "
+                                               "table (default RangeIndex: position == label)"), loc_bi)
             co = column_of(series)
             rank_val = lookup_col(co[0], co[1]) if co is not None else (series if is_mcall(series, "rank") else None)
             if rank_val is not None and is_mcall(rank_val, "rank"):
@@ -957,6 +982,6 @@ def run(ctx):
         check_delegators(ctx, repo, out, cls, callsig, gp)
     out.flush()
     ctx.floor("R1", 36)
-    ctx.floor("R2", 8)
+    ctx.floor("R2", 9)
     ctx.floor("R3", 30)
     ctx.floor("R4", 70)
